@@ -43,6 +43,9 @@ def cmdIndex (ws : List String) : Option String :=
       pure (mStr toString ((WrappingIndex.mk i j).resolveUncheckedH h (r * c)))
     else
       pure (accessStr acc ((WrappingIndex.mk i j).resolveH h (r * c)) true)
+  | ["ifhook", o, r, c, k] => do
+    let o ← parseOrder o; let r ← r.toNat?; let c ← c.toNat?; let k ← k.toNat?
+    pure (mStr (fun (i : Index) => s!"{i.row} {i.col}") (Gen.Index.from_flattened k o ((Shape.mk r c).toAxis o)))
   | ["whook", o, r, c, i, j] => do
     let o ← parseOrder o; let r ← r.toNat?; let c ← c.toNat?; let i ← parseInt i; let j ← parseInt j
     pure (mStr (fun (a : AxisIndex) => s!"{a.major} {a.minor}")
